@@ -394,7 +394,15 @@ func TestReplay(t *testing.T) {
 	if cfgReplayIn == "" {
 		t.Skip("no VERIF_REPLAY")
 	}
-	msg := replayOne(cfgReplayIn)
+	// the witness of a known (unrepaired) finding is evaluated without its own exclusion; every other saved case
+	// is evaluated exactly as the check evaluates generated cases
+	strict := false
+	for _, f := range loadFindings() {
+		if f.Status == "known" && strings.HasSuffix(cfgReplayIn, f.Witness) {
+			strict = true
+		}
+	}
+	msg := replayOne(cfgReplayIn, strict)
 	if msg != "" {
 		t.Fatalf("replay %s: %s", cfgReplayIn, msg)
 	}
@@ -404,8 +412,8 @@ func TestReplay(t *testing.T) {
 // (the property itself is evaluated on that case).
 var strictReplay bool
 
-func replayOne(path string) string {
-	strictReplay = true
+func replayOne(path string, strict bool) string {
+	strictReplay = strict
 	defer func() { strictReplay = false }()
 	b, err := os.ReadFile(path)
 	if err != nil {
@@ -487,7 +495,7 @@ func runWitnesses(t *testing.T, property string) {
 			continue
 		}
 		path := verifRoot() + "/" + f.Witness
-		msg := replayOne(path)
+		msg := replayOne(path, f.Status == "known")
 		switch f.Status {
 		case "known":
 			if msg != "" {
